@@ -200,6 +200,12 @@ def run(P, C, tier):
         n_ok = n_err = 0
         arms_ok = set()
         arms_err = set()
+        # the variable holding the batch result: the local whose only definition is the process_batch_write call
+        RES = set()
+        for l, n, lty, leaf in w.named_locals():
+            ds = w.var_defs(leaf)
+            if len(ds) == 1 and mir.strip_refs(ds[0])[0] == "call" and mir.strip_refs(ds[0])[3] == pb:
+                RES.add(l)
         for bi, t in w.live_calls():
             name = callee_name(t)
             if not re.search(r"(Sender::send|Sender::blocking_send)$", name):
@@ -210,7 +216,7 @@ def run(P, C, tier):
             res = None
             for s, vals, term in g:
                 dv = mir.discr_variants(term, vals)
-                if dv and mir.strip_refs(dv[0])[0] == "var" and mir.strip_refs(dv[0])[1] == "result":
+                if dv and mir.strip_refs(dv[0])[0] == "var" and mir.strip_refs(dv[0])[2] in RES:
                     res = dv[1][0]
                 elif dv and mir.strip_refs(dv[0])[0] == "call" and mir.strip_refs(dv[0])[3] == pb:
                     res = dv[1][0]
@@ -233,8 +239,7 @@ def run(P, C, tier):
             else:
                 C.ob("R4", "ack-unclassified:" + var, False, w.loc(bi), "acknowledgement payload is neither Ok nor Err: %s" % term_str(payload)[:80])
         # the `result` variable must be the process_batch_write result
-        rdefs = [w.local_term(l, expand_vars=True) for l, n in w.names.items() if n == "result"]
-        C.ob("R4", "result-is-batch-result", any(mir.strip_refs(d)[0] == "call" and mir.strip_refs(d)[3] == pb for d in rdefs), w.loc(pb), "`result` is the value returned by process_batch_write")
+        C.ob("R4", "result-is-batch-result", len(RES) == 1, w.loc(pb), "the matched variable is defined once, by the value returned by process_batch_write")
         for v in variants:
             if v in NON_WRITING:
                 continue
